@@ -403,6 +403,9 @@ func sameDump(a, b map[string]string) (bool, string) {
 // whether a blob exists ('o' old only, 'n' blob only, 'b' both, '-' neither).
 func layoutOf(d db.KeyValueReader, height uint64) string {
 	var sb bytes.Buffer
+	if height > 1<<20 {
+		return ""
+	}
 	for b := uint64(0); b <= height; b++ {
 		hasOld := false
 		for _, err := range core.TransactionsByBlockNumberAndIndexBucket.Prefix().Add(b).Scan(d) {
